@@ -3,7 +3,7 @@ use crate::keyring::{EncodedPk, EncodedSk, Keyring};
 use crate::model::Model;
 use crate::report::*;
 use crate::util::*;
-use ct_codecs::{Base64, Encoder};
+use ct_codecs::{Base64, Decoder, Encoder};
 use std::panic::{catch_unwind, AssertUnwindSafe};
 
 pub struct C17;
@@ -159,6 +159,9 @@ impl Prop for C17 {
         for _ in 0..(if th { 300 } else { 40 }) { v.push(case(&[("kind", "name".into()), ("ni", "rand".into()), ("seed", rng.next().to_string())])); }
         for pos in 0..48usize { for alt in 0..(if th { 6 } else { 2 }) { v.push(case(&[("kind", "pkcorrupt".into()), ("pos", pos.to_string()), ("alt", alt.to_string()), ("seed", rng.next().to_string())])); } }
         for _ in 0..(if th { 2000 } else { 200 }) { v.push(case(&[("kind", "pkrt".into()), ("seed", rng.next().to_string())])); }
+        // EVERY single-character corruption of the key part of an encoded public key (43 positions x 63 other characters) must be refused — among them the
+        // few whose wrong checksum differs from the stored one in a way a weak comparison would miss (the byte differences cancel out, sum to zero, agree in one byte …)
+        for _ in 0..(if th { 12 } else { 3 }) { v.push(case(&[("kind", "pkall".into()), ("seed", rng.next().to_string())])); }
         // what the TOOL writes (`key gen -o`, appended to keyrings of every shape — with and without a final newline, CRLF, comments) parses back
         v.extend(crate::props::c14::C14.cases(tier, seed ^ 0x17).into_iter().filter(|c| get(c, "n") == "2" && !get(c, "init").starts_with("big")));
         v
@@ -318,6 +321,25 @@ impl Prop for C17 {
                     if back != want { o.oracle_fail = Some(("written-keyring-parses-back".into(), format!("a key named {:?} is accepted by key generation, but the keyring written for it parses back as {}", name, back.chars().take(120).collect::<String>()))); return o; }
                 }
                 if mv != format!("ok {}", valid) { o.disagreement = Some(format!("valid_key_name({:?}) = {} but the model says {}", name, valid, mv)); }
+            }
+            "pkall" => {
+                let mut rng = Rng::new(get(c, "seed").parse().unwrap_or(0));
+                let k = rng.bytes(32); let s = enc_pk(&k);
+                let alpha = b"ABCDEFGHIJKLMNOPQRSTUVWXYZabcdefghijklmnopqrstuvwxyz0123456789+/";
+                o.nontrivial = Some(format!("pkall/{}", get(c, "seed")));
+                let (mut tried, mut cancelling) = (0usize, 0usize);
+                for pos in 0..43usize { for &nc in alpha.iter() {
+                    let mut b = s.clone().into_bytes(); if b[pos] == nc { continue; } b[pos] = nc;
+                    let s2 = String::from_utf8(b).unwrap(); tried += 1;
+                    // how the wrong checksum relates to the stored one (for the record only)
+                    if let Ok(raw) = Base64::decode_to_vec(&s2, None) { if raw.len() == 36 { let calc = kestrel_crypto::sha256(&raw[..32]); let d: Vec<u8> = (0..4).map(|i| calc[i] ^ raw[32 + i]).collect(); if d.iter().fold(0u8, |a, x| a ^ x) == 0 && d.iter().any(|&x| x != 0) { cancelling += 1; } } }
+                    let r = catch_unwind(AssertUnwindSafe(|| match EncodedPk::try_from(s2.as_str()) { Err(_) => false, Ok(e) => Keyring::decode_public_key(&e).is_ok() }));
+                    match r { Err(_) => { o.oracle_fail = Some(("no-crash".into(), format!("decode_public_key panicked on {:?}", s2))); return o; }
+                        Ok(true) => { o.impl_obs = format!("accepted {}", s2); o.model_obs = m.ask(&format!("decode_pk {}", hex(s2.as_bytes()))); o.oracle_fail = Some(("checksum-detects-corruption".into(), format!("the encoded public key {} with character {} replaced by {:?} ({}) is accepted as a usable key although its checksum does not match", s, pos, nc as char, s2))); return o; }
+                        Ok(false) => {} }
+                } }
+                o.validated += tried as u64; o.tags.push(format!("pkall: {} corruptions, {} with cancelling checksum differences", tried, cancelling.min(20)));
+                o.impl_obs = format!("{} single-character corruptions refused ({} of them with checksum differences that cancel under XOR)", tried, cancelling); o.model_obs = "all refused".into();
             }
             "pkcorrupt" => {
                 let mut rng = Rng::new(get(c, "seed").parse().unwrap_or(0));
